@@ -94,17 +94,20 @@ impl Json {
     }
 }
 
+/// The span list of an event: the spans in the scope of `leaf` (the event's
+/// parent, which is the current span unless the event names another one), from
+/// the root down.
 struct SerializableContext<'a, 'b, Span, N>(
-    &'b crate::subscribe::Context<'a, Span>,
+    &'b crate::registry::SpanRef<'a, Span>,
     std::marker::PhantomData<N>,
 )
 where
-    Span: Collect + for<'lookup> crate::registry::LookupSpan<'lookup>,
+    Span: for<'lookup> crate::registry::LookupSpan<'lookup>,
     N: for<'writer> FormatFields<'writer> + 'static;
 
 impl<Span, N> serde::ser::Serialize for SerializableContext<'_, '_, Span, N>
 where
-    Span: Collect + for<'lookup> crate::registry::LookupSpan<'lookup>,
+    Span: for<'lookup> crate::registry::LookupSpan<'lookup>,
     N: for<'writer> FormatFields<'writer> + 'static,
 {
     fn serialize<Ser>(&self, serializer_o: Ser) -> Result<Ser::Ok, Ser::Error>
@@ -114,10 +117,8 @@ where
         use serde::ser::SerializeSeq;
         let mut serializer = serializer_o.serialize_seq(None)?;
 
-        if let Some(leaf_span) = self.0.lookup_current() {
-            for span in leaf_span.scope().from_root() {
-                serializer.serialize_element(&SerializableSpan(&span, self.1))?;
-            }
+        for span in self.0.scope().from_root() {
+            serializer.serialize_element(&SerializableSpan(&span, self.1))?;
         }
 
         serializer.end()
@@ -277,11 +278,13 @@ where
                 }
             }
 
-            if self.format.display_span_list && current_span.is_some() {
-                serializer.serialize_entry(
-                    "spans",
-                    &SerializableContext(&ctx.ctx, format_field_marker),
-                )?;
+            if self.format.display_span_list {
+                if let Some(ref span) = current_span {
+                    serializer.serialize_entry(
+                        "spans",
+                        &SerializableContext(span, format_field_marker),
+                    )?;
+                }
             }
 
             if self.display_thread_name {
